@@ -109,7 +109,8 @@ def valid_type(dtype):
         return True
 
     # Check odML tuple dtype.
-    rexp = re.compile("^[1-9][0-9]*-tuple$")
+    # "\Z" instead of "$": the latter also matches before a trailing newline.
+    rexp = re.compile(r"^[1-9][0-9]*-tuple\Z")
     if len(rexp.findall(dtype)) == 1:
         return True
 
